@@ -14,13 +14,17 @@ PROP = "C15"
 
 # state changes between the ticks (each batch makes the state dirty)
 BATCHES = [
-    ["1;255;0;0;17;2.2", "1;0;0;0;3;lamp"],
+    ["1;255;0;0;17;2.2", "1;0;0;0;3;lamp", "1;255;3;0;11;a rather long sketch name of node one"],
     ["1;0;1;0;2;1"],
+    ["1;255;3;0;11;s"],  # the serialisation gets SHORTER here: a temp file left by a failed save is longer than the next one
     ["2;255;0;0;17;2.2", "1;255;3;0;0;66"],
-    ["1;0;1;0;2;0", "2;1;0;0;6;t"],
-    ["2;1;1;0;0;19.5"],
+    ["1;0;1;0;2;0", "2;1;0;0;6;t", "2;1;1;0;0;19.5"],
 ]
 NTICKS = 4
+
+
+class LoadFailed(Exception):
+    """A fresh load of the directory raised: reported as a finding by the scenario that asked for it."""
 
 
 def load_copy(directory, fmt):
@@ -30,9 +34,13 @@ def load_copy(directory, fmt):
     shutil.copytree(directory, copy)
     path = os.path.join(copy, f"p.{fmt}")
     gw = make_gateway(path, [])
-    gw.tasks.persistence.safe_load_sensors()
-    tree = project_tree(gw.sensors)
-    shutil.rmtree(copy, ignore_errors=True)
+    try:
+        gw.tasks.persistence.safe_load_sensors()
+    except Exception as exc:  # pylint: disable=broad-except
+        raise LoadFailed(f"{type(exc).__name__}: {exc}") from exc
+    finally:
+        tree = project_tree(gw.sensors)
+        shutil.rmtree(copy, ignore_errors=True)
     return tree
 
 
@@ -305,6 +313,9 @@ def _work(chunk):
     for scn in chunk:
         try:
             viols, reached = run_scenario(scn)
+        except LoadFailed as exc:
+            cause = type(exc.__cause__).__name__ if exc.__cause__ is not None else "?"
+            viols, reached = [Violation(PROP, f"fresh-load-raises|{scn[0]}|{cause}", f"{scn}: after the (failed) save a fresh start-up load raised {exc}", {"kind": "fault", "check": PROP, "scenario": list(scn)})], True
         except HarnessError as exc:
             viols, reached = [Violation(PROP, "HARNESS", str(exc), {"scenario": list(scn)})], False
         out.append((scn, viols, reached))
@@ -365,7 +376,7 @@ def run(tier):
                 report.add_all(viols)
     cleanup_process_scratch()
     for v in list(report.violations.values()):
-        again, _ = run_scenario(tuple(v.replay["scenario"]))
+        again = _work([tuple(v.replay["scenario"])])[0][1]
         if not any(a.signature == v.signature for a in again):
             raise HarnessError(f"{v.signature} did not reproduce")
     cleanup_process_scratch()
@@ -404,7 +415,7 @@ def replay(data):
 
         return c15b.replay(data)
     scn = tuple(rep["scenario"])
-    viols, _ = run_scenario(scn)
+    viols = _work([scn])[0][1]
     cleanup_process_scratch()
     sigs = sorted(v.signature for v in viols)
     print(f"scenario {scn}: violations {sigs}")
